@@ -42,7 +42,7 @@ struct Config {
     static const char* order_name(int o) { static const char* n[] = {"ascending", "descending", "block_round_robin", "blocks_reversed", "out_of_range_first", "random"}; return n[o % 6]; }
 };
 
-struct Stats { uint64_t launches = 0, threads = 0, in_range_threads = 0, dup_threads = 0, h2d = 0, d2h = 0, mallocs = 0, frees = 0, deferred_runs = 0; };
+struct Stats { uint64_t schedule_hash = 0; uint64_t launches = 0, threads = 0, in_range_threads = 0, dup_threads = 0, h2d = 0, d2h = 0, mallocs = 0, frees = 0, deferred_runs = 0; };
 
 struct Launch {
     std::function<void()> body;   // runs ONE thread with the ids currently in g_thread/g_block/...
@@ -188,6 +188,11 @@ private:
             // a duplicate must not run before its original: restore that
             std::vector<char> seen(total, 0);
             for (auto& s : sched) { uint32_t gid = s & 0x7fffffffu; if (!seen[gid]) { seen[gid] = 1; s = gid; } else s = gid | 0x80000000u; }
+        }
+        {   // distinctness measure: the executed sequence of (global id, duplicate flag) together with the geometry
+            uint64_t h = mix64(G, B);
+            h = fnv1a(sched.data(), sched.size() * sizeof(uint32_t), h);
+            stats.schedule_hash = mix64(stats.schedule_hash, h);
         }
         // images -------------------------------------------------------------------------------------------------------
         // every live device block with its red zones; the output is the never-host-initialised block of the expected size
